@@ -57,8 +57,10 @@ UF = {
 
 class Ctx:
     def __init__(self, prefix=(), pending=None, feas_timeout=FEAS_TIMEOUT_MS, max_decisions=4000):
-        self.solver = z3.Solver()
-        self.solver.set("timeout", feas_timeout)
+        self.feas_timeout = feas_timeout
+        self.cond_vars = []     # per cond: frozenset of ids of the uninterpreted constants it mentions
+        self.cond_def = []      # per cond: id of the fresh variable it DEFINES (total definition) or None
+        self._vars_cache = {}
         self.prefix = list(prefix)
         self.pos = 0
         self.trace = []
@@ -73,9 +75,12 @@ class Ctx:
         self.ax_seen = set()
         self.calls = {"atan2": [], "sqrt": []}
         self.nonneg_ids = set()
+        self.lazy_sqrt = False
 
     # -- assumptions -----------------------------------------------------
-    def assume(self, c):
+    def assume(self, c, defines=None):
+        """defines: fresh variable for which `c` is a total definition (always satisfiable whatever
+        the other variables are); such a cond is only relevant to queries that mention the variable."""
         if isinstance(c, SymBool):
             c = c.e
         if isinstance(c, (bool, np.bool_)):
@@ -83,7 +88,73 @@ class Ctx:
                 raise PathAbort()
             return
         self.conds.append(c)
-        self.solver.add(c)
+        self.cond_vars.append(self.vars_of(c))
+        self.cond_def.append(defines.get_id() if defines is not None else None)
+
+    def vars_of(self, t):
+        """ids of the uninterpreted constants in term t (cached per AST node)."""
+        k = t.get_id()
+        r = self._vars_cache.get(k)
+        if r is not None:
+            return r
+        out = set()
+        stack = [t]
+        seen = set()
+        while stack:
+            x = stack.pop()
+            i = x.get_id()
+            if i in seen:
+                continue
+            seen.add(i)
+            c = self._vars_cache.get(i)
+            if c is not None:
+                out |= c
+                continue
+            if z3.is_const(x):
+                if x.decl().kind() == z3.Z3_OP_UNINTERPRETED:
+                    out.add(i)
+                continue
+            if z3.is_app(x):
+                stack.extend(x.children())
+        r = frozenset(out)
+        self._vars_cache[k] = r
+        return r
+
+    def relevant(self, exprs):
+        """Cone of influence: conds sharing variables (transitively) with exprs; a definition is
+        pulled in only when the variable it defines is relevant. Dropping conds over-approximates
+        satisfiability, so `unsat` on the slice is `unsat` on the full path condition."""
+        rel = set()
+        for e in exprs:
+            rel |= self.vars_of(e)
+        picked = [False] * len(self.conds)
+        changed = True
+        while changed:
+            changed = False
+            for i, vs in enumerate(self.cond_vars):
+                if picked[i]:
+                    continue
+                d = self.cond_def[i]
+                if (d in rel) if d is not None else (vs & rel):
+                    picked[i] = True
+                    if not vs <= rel:
+                        rel |= vs
+                    changed = True
+        return [c for c, p in zip(self.conds, picked) if p]
+
+    def solve(self, extra, timeout, full=False):
+        """check-sat of (sliced or full) path condition + extra. Returns (result, model|None)."""
+        extra = [e for e in extra]
+        conds = self.conds if full else self.relevant(extra)
+        s = z3.Solver()
+        s.set("timeout", int(timeout))
+        s.add(*conds)
+        s.add(*extra)
+        t0 = time.time()
+        r = s.check()
+        self.nqueries += 1
+        self.solver_time += time.time() - t0
+        return r, (s.model() if r == z3.sat else None)
 
     def fresh(self, name="t"):
         self.nfresh += 1
@@ -97,17 +168,12 @@ class Ctx:
 
     def _check(self, extra):
         t0 = time.time()
-        self.solver.push()
-        self.solver.add(extra)
-        r = self.solver.check()
-        self.solver.pop()
-        self.nqueries += 1
-        self.solver_time += time.time() - t0
+        r, _ = self.solve([extra], self.feas_timeout)
         if r == z3.unknown:
             # non-linear feasibility: the linear-form abstraction is sound for `unsat`
             try:
                 from vt.symreal.abstract import abstract_query
-                asserts, _ = abstract_query(self.conds, extra, self.nonneg_ids)
+                asserts, _ = abstract_query(self.relevant([extra]), extra, self.nonneg_ids)
                 s2 = z3.Solver()
                 s2.set("timeout", 5000)
                 s2.add(*asserts)
@@ -236,6 +302,13 @@ def is_special(x):
 
 
 def toz(x):
+    """Public converter: refuses lazily-NaN values (resolve() them first)."""
+    if isinstance(x, Sym) and x.nan is not None:
+        raise Unsupported("lazily-NaN value used where a finite real is required (resolve() it first)")
+    return _tz(x)
+
+
+def _tz(x):
     """z3 Real term of a finite number; raises ValueError for nan/inf, TypeError otherwise."""
     if isinstance(x, Sym):
         return x.e
@@ -255,7 +328,7 @@ def toz(x):
     if isinstance(x, fractions.Fraction):
         return z3.RealVal(str(x))
     if isinstance(x, np.ndarray) and x.ndim == 0:
-        return toz(x.item())
+        return _tz(x.item())
     raise TypeError(type(x))
 
 
@@ -344,23 +417,43 @@ def _ipow(e, p):
     return r
 
 
-class Sym:
-    __slots__ = ("e",)
+def _nj(a, b):
+    """Join two lazy-NaN conditions."""
+    if a is None:
+        return b
+    if b is None:
+        return a
+    return z3.Or(a, b)
 
-    def __init__(self, e):
+
+class Sym:
+    """Symbolic finite real. `nan` (optional z3 Bool) is a lazy poison: when it holds the value
+    is NaN instead (only produced by sqrt when the context runs with lazy_sqrt)."""
+    __slots__ = ("e", "nan")
+
+    def __init__(self, e, nan=None):
         self.e = e
+        self.nan = nan
+
+    def resolve(self):
+        """Fork on the lazy NaN condition: concrete NaN or a clean symbolic value."""
+        if self.nan is None:
+            return self
+        if ctx().decide(self.nan):
+            return NAN
+        return Sym(self.e)
 
     # -- arithmetic ----------------------------------------------------
     def _bin(self, o, f, swap=False):
         if isinstance(o, np.ndarray):
             return NotImplemented
         try:
-            oz = toz(o)
+            oz = _tz(o)
         except TypeError:
             return NotImplemented
         except ValueError:
             return _special_bin(self, o, f, swap)
-        return Sym(f(oz, self.e) if swap else f(self.e, oz))
+        return Sym(f(oz, self.e) if swap else f(self.e, oz), _nj(self.nan, getattr(o, "nan", None)))
 
     def __add__(self, o): return self._bin(o, lambda a, b: a + b)
     def __radd__(self, o): return self._bin(o, lambda a, b: a + b, True)
@@ -386,27 +479,27 @@ class Sym:
                 if c.decide(self.e == 0):
                     return NAN
                 return CF("inf") if c.decide(self.e > 0) else CF("-inf")
-            return Sym(self.e / o.e)
+            return Sym(self.e / o.e, _nj(self.nan, o.nan))
         try:
-            oz = toz(o)
+            oz = _tz(o)
         except TypeError:
             return NotImplemented
         except ValueError:
             if math.isnan(o):
                 return NAN
-            return Sym(z3.RealVal(0))  # finite / +-inf
+            return Sym(z3.RealVal(0), self.nan)  # finite / +-inf
         if o == 0:
             c = ctx()
             if c.decide(self.e == 0):
                 return NAN
             return CF("inf") if c.decide(self.e > 0) else CF("-inf")
-        return Sym(self.e / oz)
+        return Sym(self.e / oz, self.nan)
 
     def __rtruediv__(self, o):
         if isinstance(o, np.ndarray):
             return NotImplemented
         try:
-            oz = toz(o)
+            oz = _tz(o)
         except TypeError:
             return NotImplemented
         except ValueError:
@@ -421,11 +514,11 @@ class Sym:
             if o == 0:
                 return NAN
             return CF("inf") if o > 0 else CF("-inf")
-        return Sym(oz / self.e)
+        return Sym(oz / self.e, self.nan)
 
-    def __neg__(self): return Sym(-self.e)
+    def __neg__(self): return Sym(-self.e, self.nan)
     def __pos__(self): return self
-    def __abs__(self): return Sym(z3.If(self.e >= 0, self.e, -self.e))
+    def __abs__(self): return Sym(z3.If(self.e >= 0, self.e, -self.e), self.nan)
     absolute = __abs__
     fabs = __abs__
 
@@ -443,25 +536,25 @@ class Sym:
         if float(p).is_integer():
             p = int(p)
             if p >= 0:
-                return Sym(_ipow(self.e, p))
+                return Sym(_ipow(self.e, p), self.nan)
             c = ctx()
             if c.decide(self.e == 0):
                 return CF("inf")
-            return Sym(1 / _ipow(self.e, p))
+            return Sym(1 / _ipow(self.e, p), self.nan)
         return Sym(_pow_uf(self.e, fconst(float(p))))
 
     def __rpow__(self, b):
         if isinstance(b, np.ndarray):
             return NotImplemented
         try:
-            bz = toz(b)
+            bz = _tz(b)
         except (TypeError, ValueError):
             return NotImplemented
         return Sym(_pow_uf(bz, self.e))
 
     def __mod__(self, o):
         try:
-            oz = toz(o)
+            oz = _tz(o)
         except (TypeError, ValueError):
             return NotImplemented
         q = z3.ToReal(z3.ToInt(self.e / oz))
@@ -469,7 +562,7 @@ class Sym:
 
     def __rmod__(self, o):
         try:
-            oz = toz(o)
+            oz = _tz(o)
         except (TypeError, ValueError):
             return NotImplemented
         q = z3.ToReal(z3.ToInt(oz / self.e))
@@ -477,7 +570,7 @@ class Sym:
 
     def __floordiv__(self, o):
         try:
-            oz = toz(o)
+            oz = _tz(o)
         except (TypeError, ValueError):
             return NotImplemented
         return Sym(z3.ToReal(z3.ToInt(self.e / oz)))
@@ -487,14 +580,18 @@ class Sym:
         if isinstance(o, np.ndarray):
             return NotImplemented
         try:
-            oz = toz(o)
+            oz = _tz(o)
         except TypeError:
             return NotImplemented
         except ValueError:
             if math.isnan(o):
                 return nanval
             return f(0.0, float(o))  # finite vs +-inf: same as 0 vs inf
-        return SymBool(f(self.e, oz))
+        nan = _nj(self.nan, getattr(o, "nan", None))
+        r = f(self.e, oz)
+        if nan is not None:
+            r = z3.Or(r, nan) if nanval else z3.And(r, z3.Not(nan))
+        return SymBool(r)
 
     def __lt__(self, o): return self._cmp(o, lambda a, b: a < b)
     def __le__(self, o): return self._cmp(o, lambda a, b: a <= b)
@@ -527,10 +624,18 @@ class Sym:
     # -- ufunc method names (numpy object loops) -------------------------
     def sqrt(self):
         c = ctx()
+        if c.lazy_sqrt:
+            y = c.fresh("sqrt")
+            c.assume(z3.Implies(self.e >= 0, z3.And(y >= 0, y * y == self.e)), defines=y)
+            c.calls["sqrt"].append((self.e, y))
+            c.nonneg_ids.add(y.get_id())
+            return Sym(y, _nj(self.nan, self.e < 0))
+        if self.nan is not None:
+            return self.resolve().sqrt()
         if c.decide(self.e < 0):
             return NAN
         y = c.fresh("sqrt")
-        c.assume(z3.And(y >= 0, y * y == self.e))
+        c.assume(z3.And(y >= 0, y * y == self.e), defines=y)
         c.calls["sqrt"].append((self.e, y))
         c.nonneg_ids.add(y.get_id())
         return Sym(y)
@@ -548,7 +653,7 @@ class Sym:
         return Sym(_trig(self.e)[1])
 
     def arctan2(self, o):
-        oz = toz(o)
+        oz = _tz(o)
         t = UF["atan2"](self.e, oz)
         ctx().axiom(("atan2", t.get_id()), z3.And(t > -fconst(PI) - fconst(1e-12), t <= fconst(PI) + fconst(1e-12)))
         ctx().calls["atan2"].append((self.e, oz, t))
@@ -588,11 +693,11 @@ class Sym:
     def square(self): return Sym(self.e * self.e)
 
     def maximum(self, o):
-        oz = toz(o)
+        oz = _tz(o)
         return Sym(z3.If(self.e >= oz, self.e, oz))
 
     def minimum(self, o):
-        oz = toz(o)
+        oz = _tz(o)
         return Sym(z3.If(self.e <= oz, self.e, oz))
 
 
